@@ -1513,7 +1513,7 @@ class _Sharded:
 def run(ctx):
     ctx.prove(COQ_FILES, allowed_axioms=(), trusted_base=TRUSTED)
     stats = []
-    for fam, n in ((FAMILIES[0], ctx.n(300, 6000)), (FAMILIES[1], ctx.n(300, 5000)), (FAMILIES[2], ctx.n(250, 5000))):
+    for fam, n in ((FAMILIES[0], ctx.n(250, 2000)), (FAMILIES[1], ctx.n(250, 1500)), (FAMILIES[2], ctx.n(200, 1500))):
         stats.append(run_family(_Sharded(ctx, 400), fam, n))
         ctx.log(f"family {fam.name}: {stats[-1]['cases']} cases, mismatches={stats[-1]['mismatches']}, "
                 f"oracle failures={stats[-1]['oracle_failures']} (known {stats[-1]['known']})")
